@@ -68,7 +68,13 @@ def collocation(chk, imod):
     ok, bad = False, None
     if len(calls) == 1 and known_sig:
         b = agree.bind_call(calls[0], formals)
-        if b is None:
+        if any(isinstance(a_, ast.Starred) for a_ in calls[0].args) or any(k_.arg is None for k_ in calls[0].keywords):
+            b, starred = None, True          # star arguments: which parameter receives what is not followed
+        else:
+            starred = False
+        if b is None and starred:
+            bad = None
+        elif b is None:
             bad = f"`{src(calls[0])[:80]}` does not fit the signature {formals}: the constructor raises"
         else:
             wrong, unknown = [], []
@@ -133,6 +139,7 @@ def collocation_analysis(cm, k_cu):
     class State:
         def __init__(self):
             self.fills, self.bufs, self.parts, self.folds, self.returned, self.loops, self.notes = [], {}, {}, [], None, [], []
+            self.unmodelled = []
 
     def flag_value(test, flags):
         t, sw = _polarity(test)
@@ -447,6 +454,11 @@ def collocation_analysis(cm, k_cu):
                         st8.notes.append(f"`if {src(st.test)[:40]}`: returns on one arm only")
                 continue
             if isinstance(st, (ast.For, ast.While, ast.With)):
+                # names (re)bound by the loop header or inside a loop body hold another value on every pass: what was known about them
+                # before the loop is not what a store inside the loop sees
+                for x in ast.walk(st):
+                    if isinstance(x, ast.Name) and isinstance(x.ctx, ast.Store) and x.id in env and not isinstance(env[x.id], tuple):
+                        env[x.id] = None
                 st8.loops.append(st)
                 try:
                     if walk(st.body, env, flags, st8):
@@ -454,6 +466,32 @@ def collocation_analysis(cm, k_cu):
                 finally:
                     st8.loops.pop()
                 continue
+            # ---- anything else: a statement the reading does not model.  ASSUMPTION of every verdict: the index sets and matrices are
+            # changed by the modelled statements only.  A store through a name that holds an index set (`js[js >= nb] -= nb`), a method
+            # called on it or on a matrix (`js.sort()`, `mat.fill(0)`), a call that receives one (`np.put(mat, ...)`, `np.mod(js, nb,
+            # out=js)`) may change it: the name is forgotten, a matrix is marked as touched (its verdicts become UNDECIDED).
+            touched = set()
+            for x in ast.walk(st):
+                if isinstance(x, (ast.Subscript, ast.Attribute)) and isinstance(x.ctx, (ast.Store, ast.Del)):
+                    r = x
+                    while isinstance(r, (ast.Subscript, ast.Attribute)):
+                        r = r.value
+                    if isinstance(r, ast.Name):
+                        touched.add(r.id)
+                if isinstance(x, ast.Name) and isinstance(x.ctx, (ast.Store, ast.Del)):
+                    touched.add(x.id)
+                if isinstance(x, ast.Call):
+                    if isinstance(x.func, ast.Attribute) and isinstance(x.func.value, ast.Name):
+                        touched.add(x.func.value.id)
+                    if isinstance(st, ast.Expr) or any(k.arg == "out" for k in x.keywords):
+                        for a in list(x.args) + [k.value for k in x.keywords]:
+                            if isinstance(a, ast.Name):
+                                touched.add(a.id)
+            for n_ in touched:
+                if n_ in env and not isinstance(env[n_], tuple):
+                    env[n_] = None
+                if n_ in st8.bufs:
+                    st8.unmodelled.append(f"`{src(st)[:60]}` works on the matrix `{n_}` in a way that is not modelled")
         return False
 
     out = {}
@@ -495,6 +533,10 @@ def collocation_verdicts(cm, k_cu):
 
         def same(a, b):
             return sp.expand((a - b).subs(sub)) == 0
+        if st8.unmodelled:
+            undec_j(f"on a {what} space {st8.unmodelled[0]}")
+            undec_f(whyj or "")
+            continue
         R = st8.returned
         if R is None or R not in st8.bufs:
             cands = [b for b, w in st8.bufs.items() if w is not None and _same(w, nb)]
@@ -815,11 +857,30 @@ def routine_pair(imod, body, init):
     return True, None, node
 
 
+def _complex_handled_elsewhere(imod):
+    """ASSUMPTION of "the real pair is taken for complex data, the imaginary part is dropped": complex data reach the solve as they are.
+    An interpolator that splits them into real and imaginary parts (or views them as reals) anywhere solves complex data correctly with
+    the real pair.  -> text naming the place, or None"""
+    try:
+        ms = imod.methods(C1)
+    except Exception:
+        return "methods of the interpolator not read"
+    for mname, m in ms.items():
+        for n in ast.walk(m):
+            if isinstance(n, ast.Attribute) and n.attr in ("real", "imag"):
+                return f"`{C1}.{mname}` takes `.{n.attr}` of an array (`{src(n)[:40]}`)"
+            if isinstance(n, ast.Call) and src(n.func).split(".")[-1] in ("real", "imag", "iscomplexobj", "iscomplex", "view", "real_if_close"):
+                return f"`{C1}.{mname}` calls `{src(n.func)}`"
+    return None
+
+
 def factor_solve_pair(chk, imod):
     init_q = f"{C1}.__init__"
     init = chk.func(U.INTERP, init_q)
     body = Specialiser(imod, C1, facts=_facts1(False), keep={"collocation_matrix"}).run("__init__")
     ok, bad, node = routine_pair(imod, body, init)
+    if bad is not None and "imaginary part" in bad and _complex_handled_elsewhere(imod) is not None:
+        bad = None
     chk.pat("H2-factor-solve-pair", node, "dtype == complex -> (zgbtrf, zgbtrs) else (dgbtrf, dgbtrs)", ok,
             "complex data selects the complex factorisation together with the complex solve, real data the real pair; the test is an "
             "equality, so every spelling of the complex dtype (complex, np.dtype(complex)) takes the complex pair", bad,
@@ -828,7 +889,7 @@ def factor_solve_pair(chk, imod):
     params = [a.arg for a in init.args.args if a.arg != "self"]
     mod_names = {t.id for st in imod.tree.body if isinstance(st, ast.Assign) for t in st.targets if isinstance(t, ast.Name)}
     cls_names = {t.id for st in imod.cls(C1).body if isinstance(st, ast.Assign) for t in st.targets if isinstance(t, ast.Name)}
-    shared, node2 = [], init
+    shared, node2, unfollowed = [], init, []
     raw = Specialiser(imod, C1, keep=set(imod.methods(C1)) - {"__init__"}).run("__init__")
     for st in _flat(raw):
         if isinstance(st, ast.Assign) and isinstance(st.targets[0], ast.Subscript):
@@ -841,16 +902,47 @@ def factor_solve_pair(chk, imod):
                 (isinstance(tab, ast.Attribute) and src(tab.value) in ("self.__class__", "type(self)"))
             if not is_shared:
                 continue
-            key_deps = {x.id for x in ast.walk(st.targets[0].slice) if isinstance(x, ast.Name)} & set(params)
-            val_deps = {x.id for x in ast.walk(st.value) if isinstance(x, ast.Name)} & set(params)
-            used = any(isinstance(x, ast.Subscript) and isinstance(x.ctx, ast.Load) and src(x.value) == src(tab) for s2 in _flat(raw) for x in ast.walk(s2))
+            # ASSUMPTION of VIOLATED: the parameters the key depends on are ALL found.  Locals are resolved through their (single)
+            # definitions; a local that is defined more than once, by unpacking, or not in this constructor makes the set unknown.
+            flat_raw = _flat(raw)
+
+            def deps(e, depth=0):
+                """parameters an expression depends on, through single-definition locals; None when not followed"""
+                out = set()
+                for x in ast.walk(e):
+                    if not isinstance(x, ast.Name) or not isinstance(x.ctx, ast.Load):
+                        continue
+                    if x.id in params:
+                        out.add(x.id)
+                        continue
+                    defs_ = [d for d in flat_raw if isinstance(d, (ast.Assign, ast.AugAssign, ast.For, ast.With)) and
+                             any(isinstance(n, ast.Name) and n.id == x.id and isinstance(n.ctx, ast.Store) for n in ast.walk(d))]
+                    if not defs_:
+                        continue            # a global / builtin / `self`
+                    if len(defs_) != 1 or not isinstance(defs_[0], ast.Assign) or len(defs_[0].targets) != 1 or \
+                            not isinstance(defs_[0].targets[0], ast.Name) or depth > 5:
+                        return None
+                    sub = deps(defs_[0].value, depth + 1)
+                    if sub is None:
+                        return None
+                    out |= sub
+                return out
+            key_deps, val_deps = deps(st.targets[0].slice), deps(st.value)
+            if key_deps is None or val_deps is None:
+                unfollowed.append(st)
+                continue
+            used = any(isinstance(x, ast.Subscript) and isinstance(x.ctx, ast.Load) and src(x.value) == src(tab) for s2 in flat_raw for x in ast.walk(s2))
             if used and val_deps - key_deps:
                 shared.append((st, src(tab), sorted(val_deps - key_deps), sorted(key_deps)))
     if shared:
         st, tab, missing, keyd = shared[0]
         node2 = st
-    chk.ob("H2-factor-solve-pair", node2, "factors and solve routine are this interpolator's own (not shared under an incomplete key)", not shared,
-           "nothing the constructor stores is taken from a table shared between interpolators" if not shared else
+    chk.ob("H2-factor-solve-pair", node2 if not unfollowed or shared else unfollowed[0],
+           "factors and solve routine are this interpolator's own (not shared under an incomplete key)",
+           False if shared else (None if unfollowed else True),
+           ("nothing the constructor stores is taken from a table shared between interpolators" if not unfollowed else
+            f"`{src(unfollowed[0])[:70]}` stores into a table shared between interpolators; what its key and its value depend on is not followed")
+           if not shared else
            f"`{src(shared[0][0])[:80]}`: the table `{shared[0][1]}` is shared by all interpolators and keyed by {shared[0][3]} only, but the stored "
            f"value also depends on {shared[0][2]}: an interpolator built later with the same {'/'.join(shared[0][3])} and another "
            f"{'/'.join(shared[0][2])} receives the first one's factors and solve routine (e.g. the real LAPACK solve for complex data, which "
@@ -863,6 +955,36 @@ def factor_solve_pair(chk, imod):
     okl = bool(lus) and src(lus[0].value.func) in ("splu", "scipy.sparse.linalg.splu", "factorized") and "self._imat" in src(lus[0].value)
     chk.pat("H3-periodic-wrap", lus[0] if lus else init, "periodic: sparse LU of the collocation matrix", okl, "", file=U.INTERP,
             func=init_q, nontrivial=False)
+
+
+def _sparse_lu_is_plain(imod):
+    """the sparse LU the constructor keeps on a periodic space is that of the collocation matrix `self._imat` itself (possibly converted to
+    another sparse format), not of its transpose"""
+    try:
+        pbody = Specialiser(imod, C1, facts=_facts1(True), keep={"collocation_matrix"}).run("__init__")
+    except Exception:
+        return False
+    lus = [st for st in _flat(pbody) if isinstance(st, ast.Assign) and src(st.targets[0]) == "self._splu" and isinstance(st.value, ast.Call)]
+    if len(lus) != 1 or not lus[0].value.args:
+        return False
+    a = lus[0].value.args[0]
+    while isinstance(a, ast.Call) and src(a.func).split(".")[-1] in ("csc_matrix", "csr_matrix", "csc_array", "tocsc") and len(a.args) <= 1:
+        a = a.args[0] if a.args else a.func.value
+    if isinstance(a, ast.Call) and isinstance(a.func, ast.Attribute) and a.func.attr in ("tocsc", "tocsr", "copy") and not a.args:
+        a = a.func.value
+    return src(a) == "self._imat"
+
+
+def _band_matrix_is_plain(imod):
+    """the band array given to the factorisation holds the collocation matrix itself: established when rule H2-band-storage holds"""
+    from ..core import Check, HOLDS
+    sub = Check("C08", "quick")
+    try:
+        body = Specialiser(imod, C1, facts=_facts1(False), keep={"collocation_matrix"}).run("__init__")
+        band_storage(sub, imod, body, imod.func(f"{C1}.__init__"), f"{C1}.__init__")
+    except Exception:
+        return False
+    return bool(sub.obs) and all(o.status == HOLDS for o in sub.obs)
 
 
 def band_storage(chk, imod, body, init, init_q):
@@ -897,6 +1019,30 @@ def band_storage(chk, imod, body, init, init_q):
         if isinstance(st, ast.Assign) and len(st.targets) == 1 and isinstance(st.targets[0], ast.Tuple) and len(st.targets[0].elts) == 2 and \
                 all(isinstance(x, ast.Name) for x in st.targets[0].elts) and "nonzero" in src(st.value):
             idx = (st.targets[0].elts[0].id, st.targets[0].elts[1].id, flat)
+    # ASSUMPTIONS of the VIOLATED verdicts: (1) the (row, column) pairs enumerated are those of the collocation matrix itself - `nonzero`
+    # applied to a transposed matrix enumerates (column, row); (2) the routine the band array is handed to is a LAPACK ?gbtrf, whose layout
+    # is the one stated below (scipy's solve_banded / ?gbsv take kl + ku + 1 rows).
+    if idx is not None:
+        for st in flat:
+            e = st.iter if isinstance(st, ast.For) else st.value if isinstance(st, ast.Assign) else None
+            if e is not None and "nonzero" in src(e) and any((isinstance(x, ast.Attribute) and x.attr in ("T", "transpose")) or
+                                                             (isinstance(x, ast.Call) and src(x.func).split(".")[-1] == "transpose")
+                                                             for x in ast.walk(e)):
+                idx = None
+    fac = None
+    for st in flat:
+        if isinstance(st, ast.Assign) and len(st.targets) == 1 and isinstance(st.value, ast.Call):
+            t = st.targets[0]
+            if [src(x) for x in (t.elts if isinstance(t, ast.Tuple) else [t])][:1] == ["self._bmat"]:
+                fac = st
+    if fac is not None:
+        env_ = _bindings(flat)
+        tests_ = {src(_polarity(t)[0]) for st in flat for t in ([st.test] if isinstance(st, ast.If) else []) +
+                  [x.test for x in own_exprs(st) if isinstance(x, ast.IfExp)] if _mentions_dtype(t)}
+        cs_ = [(next(iter(tests_)), True), (next(iter(tests_)), False)] if len(tests_) == 1 else [(None, None)]
+        rs_ = [_routine(fac.value.func, env_, ct, case) for ct, case in cs_]
+        if not all(r is not None and str(r[1]).endswith("gbtrf") for r in rs_):
+            band = None
     if band is None or alloc is None or idx is None:
         chk.pat("H2-band-storage", node, "LAPACK band storage", False, "", None, file=U.INTERP, func=init_q)
         return
@@ -973,6 +1119,57 @@ def band_storage(chk, imod, body, init, init_q):
             "band storage with room for fill-in), l / u = number of sub- / super-diagonals", bad, file=U.INTERP, func=init_q)
 
 
+def _init_assigns(imod, per, attrs):
+    """does the constructor, read on a periodic / clamped space, assign one of these attributes of the interpolator?  None: not followed"""
+    try:
+        body = Specialiser(imod, C1, facts=_facts1(per), keep={"collocation_matrix"}).run("__init__")
+    except Exception:
+        return None
+    for st in _flat(body):
+        for t in (st.targets if isinstance(st, ast.Assign) else []):
+            for el in (t.elts if isinstance(t, ast.Tuple) else [t]):
+                if src(el) in attrs:
+                    return True
+    return False
+
+
+def _solve_is_gbtrs(imod):
+    """the routine the constructor keeps as `self._solveFunc` is a LAPACK ?gbtrs (whose positional arguments are ab, kl, ku, b, ipiv)"""
+    try:
+        body = Specialiser(imod, C1, facts=_facts1(False), keep={"collocation_matrix"}).run("__init__")
+    except Exception:
+        return False
+    flat = _flat(body)
+    env = _bindings(flat)
+    if "self._solveFunc" not in env:
+        return False
+    tests = {src(_polarity(t)[0]) for st in flat for t in ([st.test] if isinstance(st, ast.If) else []) +
+             [x.test for x in own_exprs(st) if isinstance(x, ast.IfExp)] if _mentions_dtype(t)}
+    cases = [(next(iter(tests)), True), (next(iter(tests)), False)] if len(tests) == 1 else [(None, None)]
+    for ct, case in cases:
+        r = _routine(env["self._solveFunc"], env, ct, case)
+        if r is None or not str(r[1]).endswith("gbtrs"):
+            return False
+    return True
+
+
+def _reader_side_ok(chk):
+    """ASSUMPTION behind every "the wrapped coefficients are missing / stale / misplaced" verdict: the last `degree` coefficients of a
+    periodic spline are READ as coefficients of their own (the kernels take the window c[span-degree .. span] without folding the index,
+    C07 rule E4) and no spline class wraps its coefficients itself before evaluating.  -> (bool, text)"""
+    from .C07 import wrap_done_by_reader, readers_take_linear_window
+    try:
+        smod = chk.mod(U.SPLINES)
+        r = wrap_done_by_reader(smod)
+        if r is not None:
+            return False, r
+        if not readers_take_linear_window(chk):
+            return False, "the evaluation kernels were not established to read the window c[span-degree .. span] without folding the index"
+    except Exception as e:
+        return False, f"reader side not followed ({type(e).__name__})"
+    return True, ""
+
+
 def solves_1d(chk, imod):
     ci_q = f"{C1}.compute_interpolant"
     ci = chk.func(U.INTERP, ci_q)
@@ -987,8 +1184,10 @@ def solves_1d(chk, imod):
     other = [c for st in _flat(body) for c in own_exprs(st) if isinstance(c, ast.Call) and src(c.func) == "self._splu.solve"]
     ok, bad, node = False, None, ci
     if other and not calls:
-        bad = ("on a clamped basis the interpolation calls the sparse LU, which the constructor builds for periodic bases only: the call fails "
-               "(the dispatch between the periodic and the clamped solve is inverted)")
+        # ASSUMPTION checked: the constructor does not build the sparse LU on a clamped space (read with the same specialisation)
+        if _init_assigns(imod, False, ("self._splu",)) is False:
+            bad = ("on a clamped basis the interpolation calls the sparse LU, which the constructor builds for periodic bases only: the call fails "
+                   "(the dispatch between the periodic and the clamped solve is inverted)")
     elif len(calls) == 1:
         st, c = calls[0]
         node = st
@@ -1019,17 +1218,30 @@ def solves_1d(chk, imod):
                 return lo is not None and hi is not None and _same(lo, 0) and _same(hi, n)
             return False
         full_store = covers_all(tgt)
-        if wrong:
+        # ASSUMPTIONS of the VIOLATED verdicts below: the positional arguments have the LAPACK roles (ab, kl, ku, b, ipiv[, trans]) - the
+        # routine kept by the constructor is a ?gbtrs; the band matrix factorised is the collocation matrix itself (rule H2-band-storage),
+        # so `trans` must be 'no transpose'; `ug` is still the caller's array (never re-bound here); nothing is returned to a caller who
+        # could store the solution himself.
+        gbtrs = _solve_is_gbtrs(imod)
+        ug_rebound = any(isinstance(n_, ast.Name) and n_.id == "ug" and isinstance(n_.ctx, ast.Store) for x in _flat(body) for n_ in ast.walk(x))
+        returns = any(isinstance(x, ast.Return) and x.value is not None and not isinstance(x.value, ast.Constant) for x in _flat(body))
+        if wrong and gbtrs:
             bad = "; ".join(wrong) + ": the banded solve is given the factors in the wrong places"
+        elif wrong:
+            bad = None
         elif tr and not (isinstance(tr[0], ast.Constant) and tr[0].value in (0, False, "N")):
-            bad = f"`{src(c)[:80]}` solves the transposed system: the coefficients do not interpolate the data"
+            if gbtrs and isinstance(tr[0], ast.Constant) and _band_matrix_is_plain(imod):
+                bad = f"`{src(c)[:80]}` solves the transposed system: the coefficients do not interpolate the data"
         elif ow and rhs is not None and isinstance(rhs, ast.Name) and rhs.id == "ug":
-            bad = (f"`{ow[0].arg}=True` lets LAPACK solve in place: the caller's data array `ug` (or the row of the caller's 2-D field) is "
-                   "replaced by spline coefficients")
+            if not ug_rebound:
+                bad = (f"`{ow[0].arg}=True` lets LAPACK solve in place: the caller's data array `ug` (or the row of the caller's 2-D field) is "
+                       "replaced by spline coefficients")
         elif isinstance(tgt, ast.Name):
             later = [x for x in _flat(body) if isinstance(x, (ast.Assign, ast.AugAssign)) and "spl" in src(x.targets[0] if isinstance(x, ast.Assign) else x.target)
                      or (isinstance(x, ast.Expr) and "spl" in src(x) and x is not st)]
-            if not later:
+            if not later and returns:
+                bad = None
+            elif not later:
                 bad = (f"`{src(st)[:70]}` binds the solution to the local name `{tgt.id}` and nothing is stored into the spline: its "
                        "coefficient array is not changed")
             elif not unknown and isinstance(rhs, ast.Name) and rhs.id == "ug" and not ow and len(later) == 1 and isinstance(later[0], ast.Assign) and \
@@ -1064,9 +1276,11 @@ def solves_1d(chk, imod):
     wraps = [(k, st) for k, st in enumerate(flat) if isinstance(st, ast.Assign) and isinstance(st.targets[0], ast.Subscript) and
              src(st.targets[0].value) in COEF and isinstance(st.value, ast.Subscript) and src(st.value.value) in COEF]
     ok, bad, node = False, None, ci
+    reader_ok, reader_text = _reader_side_ok(chk)
     if banded and not solve:
-        bad = ("on a periodic basis the interpolation calls the banded solve, whose factors the constructor builds for clamped bases only: the "
-               "call fails (the dispatch between the periodic and the clamped solve is inverted)")
+        if _init_assigns(imod, True, ("self._bmat", "self._solveFunc")) is False:
+            bad = ("on a periodic basis the interpolation calls the banded solve, whose factors the constructor builds for clamped bases only: the "
+                   "call fails (the dispatch between the periodic and the clamped solve is inverted)")
     elif len(solve) == 1:
         ks, st = solve[0]
         node = st
@@ -1074,10 +1288,14 @@ def solves_1d(chk, imod):
         rhs = st.value.args[0] if st.value.args else None
         tr = [k_.value for k_ in st.value.keywords if k_.arg == "trans"] or list(st.value.args[1:2])
         if tr and not (isinstance(tr[0], ast.Constant) and tr[0].value == "N"):
-            bad = f"`{src(st.value)[:60]}` solves the transposed system: the coefficients do not interpolate the data"
+            # ASSUMPTION checked: the sparse LU is that of the collocation matrix itself, not of its transpose
+            if isinstance(tr[0], ast.Constant) and _sparse_lu_is_plain(imod):
+                bad = f"`{src(st.value)[:60]}` solves the transposed system: the coefficients do not interpolate the data"
         elif isinstance(st.targets[0], ast.Name):
             if not [x for x in flat if isinstance(x, (ast.Assign, ast.AugAssign)) and any(c_ in src(x.targets[0] if isinstance(x, ast.Assign) else x.target)
-                                                                                          for c_ in COEF)]:
+                                                                                          for c_ in COEF)] and \
+                    not any(isinstance(x, ast.Return) and x.value is not None and not isinstance(x.value, ast.Constant) for x in flat) and \
+                    not any(isinstance(x, ast.Expr) and isinstance(x.value, ast.Call) and "spl" in src(x) for x in flat):
                 bad = f"`{src(st)[:70]}` binds the solution to a local name and nothing is stored into the spline: its coefficients are not changed"
         elif tb is not None and isinstance(rhs, ast.Name) and rhs.id == "ug":
             if not (_same(tb[0], 0) and _same(tb[1], n)):
@@ -1101,6 +1319,8 @@ def solves_1d(chk, imod):
                            "ones repeated after the n-th (c[n+i] = c[i])")
                 else:
                     ok = True
+    if bad is not None and "wrap" in bad and not reader_ok:
+        bad = None          # the wrapped copy is a contract with the readers of the coefficients, which was not established (reader_text)
     chk.pat("H3-periodic-wrap", node, "c[0:n] = solve(ug); c[n:n+p] = c[0:p]", ok, "the n periodic coefficients are followed by a copy of "
             "the first `degree` of them", bad, file=U.INTERP, func=ci_q)
 
@@ -1621,10 +1841,16 @@ class Regions:
             if self.mentions_arrays(st):
                 raise Undec(f"`{src(st)[:60]}`", st)
             return
+        if isinstance(st, ast.AugAssign) and isinstance(st.target, ast.Name) and st.target.id in self.ints:
+            self.ints.pop(st.target.id, None)          # an integer that is updated in place: its value is not followed any more
+            return
         if isinstance(st, ast.For):
             return self.for_(st)
         if isinstance(st, ast.If):
             if not self.mentions_arrays(st):
+                for x in ast.walk(st):                 # integers (re)defined under a test that is not followed
+                    if isinstance(x, ast.Name) and isinstance(x.ctx, ast.Store):
+                        self.ints.pop(x.id, None)
                 return
             if self.if_(st, []):
                 return
@@ -1973,6 +2199,29 @@ def two_d(chk, imod):
             K = int(src(st.targets[0])[-1])
             if st.value.id == f"basis{3 - K}":
                 probs.append(f"`{src(st)}` stores the basis of dimension {3 - K} as basis {K}")
+    tools_ok = found == 4 and not probs
+    # ASSUMPTIONS of every VIOLATED verdict of the region analysis below:
+    #  (1) the 1-D interpolator keeps its contract - given nbasis data values it fills ALL ncells+degree coefficients of the work spline,
+    #      wrapped copy included (rules H2 / H3 of SplineInterpolator1D.compute_interpolant hold);
+    #  (2) the wrapped entries are read as coefficients of their own (kernels read the linear window, no spline class wraps by itself);
+    #  (3) interpolator / work spline k are built on basis k (the rule right below).
+    # When one of them is not established the region analysis still runs, but what it finds wrong is UNDECIDED.
+    from ..core import HOLDS as _HOLDS
+    ci1 = f"{C1}.compute_interpolant"
+    callee = [o for o in chk.obs if o.func == ci1 and o.rule in ("H2-factor-solve-pair", "H3-periodic-wrap")]
+    callee_ok = bool(callee) and all(o.status == _HOLDS for o in callee)
+    reader_ok, reader_text = _reader_side_ok(chk)
+    premises = []
+    if not callee_ok:
+        premises.append("the 1-D interpolator was not established to fill all coefficients of its work spline (wrapped copy included)")
+    if not reader_ok:
+        premises.append(reader_text)
+    if not tools_ok:
+        premises.append("the 1-D tools were not established to be built on the basis of their own dimension")
+
+    def verdict_false(rule):
+        need = premises if rule == "H3-periodic-wrap" else [p_ for p_ in premises if "tools" in p_]
+        return (False, "") if not need else (None, " - not decided, because " + "; ".join(need))
     chk.pat("H4-sweep-roles", init, "1-D tools of dimension k are built on basis k", found == 4 and not probs,
             "spline/interpolator k are built on basis k", ("; ".join(probs) + ": each direction is solved with the other direction's collocation "
                                                            "matrix") if probs else None, file=U.INTERP, func=init_q)
@@ -2002,8 +2251,9 @@ def two_d(chk, imod):
                 for st, K, text in R.solves:
                     chk.ob("H4-sweep-roles", st, text, True, "data along a dimension are interpolated with the tools of that dimension",
                            file=U.INTERP, func=q)
-                chk.ob(e.rule, e.node if e.node is not None else fn, construct if e.rule == "H3-periodic-wrap" else src(e.node)[:80], False,
-                       f"[{cfg}] {e.why}", file=U.INTERP, func=q)
+                vf, vtext = verdict_false(e.rule)
+                chk.ob(e.rule, e.node if e.node is not None else fn, construct if e.rule == "H3-periodic-wrap" else src(e.node)[:80], vf,
+                       f"[{cfg}] {e.why}{vtext}", file=U.INTERP, func=q)
                 dtype_hits += R.dtype_bad
                 continue
             except Undec as e:
@@ -2024,11 +2274,12 @@ def two_d(chk, imod):
             if bad:
                 (a, a_hi), (b, b_hi), k = bad[0]
                 what = k if k.startswith("misplaced") else KIND_TEXT.get(k, k)
-                chk.ob("H3-periodic-wrap", fn, construct, False,
+                vf, vtext = verdict_false("H3-periodic-wrap")
+                chk.ob("H3-periodic-wrap", fn, construct, vf,
                        f"[{cfg}] at the end the entries [{a}, {a_hi}) x [{b}, {b_hi}) of spl.coeffs (n = nbasis, p = degree of each dimension) hold "
                        f"{what}, not the coefficients of the two solves"
                        + (f" ({len(bad)} such blocks)" if len(bad) > 1 else "") +
-                       ": the spline does not interpolate the data near the end of a periodic dimension", file=U.INTERP, func=q)
+                       ": the spline does not interpolate the data near the end of a periodic dimension" + vtext, file=U.INTERP, func=q)
             else:
                 chk.ob("H3-periodic-wrap", fn, construct, True,
                        "every block of the coefficient array (first degree entries, middle, wrapped entries, in both dimensions) ends as the "
@@ -2047,11 +2298,78 @@ def two_d(chk, imod):
         hit = (badw[0], src(likes[src(badw[0].targets[0].value)].value))
     elif dtype_hits:
         hit = (dtype_hits[0][0], getattr(dtype_hits[0][1], "alloc", dtype_hits[0][1].name))
-    chk.ob("H5-work-dtype", hit[0] if hit else fn, "intermediate coefficients are not stored in an array typed like the data", not hit,
+    # ASSUMPTION of VIOLATED: `ug` is the caller's array, of whatever type he chose - not a local re-bound to a converted copy
+    ug_rebound = any(isinstance(n_, ast.Name) and n_.id == "ug" and isinstance(n_.ctx, ast.Store) for n_ in ast.walk(fn))
+    chk.ob("H5-work-dtype", hit[0] if hit else fn, "intermediate coefficients are not stored in an array typed like the data",
+           True if not hit else (None if ug_rebound else False),
            "the work arrays are the spline's own coefficient array and a float work array" if not hit else
            f"`{src(hit[0])[:80]}` stores spline coefficients in `{hit[1]}`, an array of the DATA's "
            "dtype: integer data truncates, single precision rounds the first-sweep coefficients, and the interpolant no longer reproduces "
            "the data", file=U.INTERP, func=q, nontrivial=False)
+
+
+APPROX_CALLS = ("np.allclose", "np.isclose", "numpy.allclose", "numpy.isclose", "math.isclose")
+
+
+def no_approximate_shortcut(chk, imod):
+    """The coefficients are the solution of the collocation system for the data GIVEN: a statement that replaces the solve whenever the
+    data pass an APPROXIMATE comparison (np.allclose / isclose, |..| < tolerance) gives data that pass it without being equal the
+    coefficients of other data.  ASSUMPTIONS of VIOLATED (checked): the test is an approximate comparison whose arguments are computed from
+    the data parameter `ug`; on the arm it selects no 1-D solve is reached (it ends with continue / return, or holds no solve while the
+    rest of the block does) although the method solves elsewhere; the arm writes coefficients or leaves the iteration."""
+    for cls_, q in ((C2, "compute_interpolant"), (C1, "compute_interpolant")):
+        if not imod.has(f"{cls_}.{q}"):
+            continue
+        try:
+            body = Specialiser(imod, cls_).run(q)
+        except Exception:
+            continue
+        fq = f"{cls_}.{q}"
+
+        def is_solve(c):
+            return isinstance(c, ast.Call) and (src(c.func).endswith(".compute_interpolant") or src(c.func) in ("self._solveFunc", "self._splu.solve"))
+        all_solves = [c for st in _flat(body) for c in own_exprs(st) if is_solve(c)]
+        data = {"ug"}
+        for st in _flat(body):
+            if isinstance(st, ast.Assign) and len(st.targets) == 1 and isinstance(st.targets[0], ast.Name) and \
+                    any(isinstance(n, ast.Name) and n.id in data for n in ast.walk(st.value)):
+                data.add(st.targets[0].id)
+            if isinstance(st, ast.For) and any(isinstance(n, ast.Name) and n.id in data for n in ast.walk(st.iter)):
+                data |= {n.id for n in ast.walk(st.target) if isinstance(n, ast.Name)}
+        verdict, text, node = True, "", None
+        for st in _flat(body):
+            if not isinstance(st, ast.If):
+                continue
+            t, sw = _polarity(st.test)
+            approx = [c for c in ast.walk(t) if isinstance(c, ast.Call) and src(c.func) in APPROX_CALLS and
+                      any(isinstance(n, ast.Name) and n.id in data for a in c.args for n in ast.walk(a))]
+            tol = [c for c in ast.walk(t) if isinstance(c, ast.Compare) and len(c.ops) == 1 and isinstance(c.ops[0], (ast.Lt, ast.LtE)) and
+                   any(isinstance(x, ast.Call) and src(x.func) in ("abs", "np.abs", "np.max", "np.amax", "np.linalg.norm") for x in ast.walk(c.left)) and
+                   any(isinstance(n, ast.Name) and n.id in data for n in ast.walk(c.left))]
+            if not approx and not tol:
+                continue
+            if isinstance(t, ast.BoolOp) or sw:
+                verdict, text, node = (None, f"`{src(st.test)[:60]}` combines an approximate comparison of the data with other tests: not followed", st) \
+                    if verdict else (verdict, text, node)
+                continue
+            arm = st.body
+            arm_solves = [c for x in arm for y in ast.walk(x) for c in [y] if is_solve(c)]
+            leaves = bool(arm) and isinstance(arm[-1], (ast.Continue, ast.Return))
+            writes = [x for y in arm for x in ast.walk(y) if isinstance(x, ast.Assign) and isinstance(x.targets[0], ast.Subscript)]
+            if all_solves and not arm_solves and (leaves or writes):
+                a = (approx or tol)[0]
+                verdict, node = False, st
+                text = (f"whenever `{src(st.test)[:70]}` holds the data " + ("get `" + src(writes[0])[:50] + "` and " if writes else "") +
+                        "no solve is done: the test is an approximate comparison" +
+                        (" (numpy's default absolute tolerance 1e-8 is not scaled to the data)" if approx and "atol" not in [k.arg for k in a.keywords] else "") +
+                        ", so data that pass it without being equal (values of uniformly small amplitude, the tail of a distribution function) "
+                        "receive the coefficients of other data and the interpolant does not take the given values")
+                break
+            verdict, text, node = (None, f"`{src(st.test)[:60]}`: an approximate comparison of the data selects statements whose effect is not followed", st) \
+                if verdict else (verdict, text, node)
+        chk.ob("H6-no-approximate-shortcut", node if node is not None else imod.func(fq), f"{fq}: no solve is replaced under an approximate test of the data",
+               verdict, "no statement of the interpolation is selected by an approximate comparison of the data" if verdict else text,
+               file=U.INTERP, func=fq)
 
 
 def run(chk):
@@ -2074,6 +2392,7 @@ def run(chk):
     collocation(chk, imod)
     factor_solve_pair(chk, imod)
     solves_1d(chk, imod)
+    no_approximate_shortcut(chk, imod)
     two_d(chk, imod)
     chk.floor("H", 12)
     chk.floor("H3-periodic-wrap", 2)
